@@ -1096,6 +1096,13 @@ func (gc *genCtx) genTLB() {
 			}
 			gc.perType[r.Name] += 0
 		}
+		if scale == 1 {
+			g.Counters["tlb_inputs_per_struct_type"] = nRand + nMut + nEvery + 2*nBomb + g.Scale(4, 60)
+			g.Counters["tlb_struct_types"]++
+		} else {
+			g.Counters["tlb_inputs_per_scalar_type"] = nRand + nMut + nEvery + 2*nBomb + g.Scale(4, 60)/scale
+			g.Counters["tlb_scalar_types"]++
+		}
 		emit("rand", nRand)
 		emit("mut", nMut)
 		if has {
